@@ -29,7 +29,7 @@ SPEC = dict(
                  "--ignore-vcs-tag is the documented opt-out: only 'tags do not influence the start' is asserted there",
                  "day-of-year 366 in a non-leap year is not generated (the statement does not say whether it matches)"],
     required=["tags_omitting_an_optional_calendar_part", "real_git_head_without_commit", "fake_runs", "real_git_runs", "scope:default", "scope:global", "scope:branch", "ignore_runs",
-              "impossible_date_tags", "tie_cases", "uniqueness_checked", "no_matching_tag_cases", "cli_tag_scope_overrides", "show_pep440_line_checked", "fetch_failure_cases", "legacy_pattern_runs", "line_separator_in_tag_name", "non_utf8_tag_names", "non_utf8_bytes_inside_a_version_text", "real_git_column_ui_always", "unicode_blank_at_tag_edge",
+              "impossible_date_tags", "tie_cases", "uniqueness_checked", "no_matching_tag_cases", "cli_tag_scope_overrides", "show_pep440_line_checked", "fetch_failure_cases", "legacy_pattern_runs", "line_separator_in_tag_name", "non_utf8_tag_names", "non_utf8_bytes_inside_a_version_text", "legacy_tags_with_month_or_day_zero", "real_git_column_ui_always", "unicode_blank_at_tag_edge",
               "planned_result_is_a_pep440_equal_tag_elsewhere", "fake_hg_runs", "hg_changesets_with_several_tags"],
     anchors=[("cli", "_parse_version_tags"), ("cli", "get_latest_vcs_version_tag"), ("cli", "_update_cfg_from_vcs"),
              ("vcs", "get_tags"), ("v2version", "is_valid"), ("v1version", "is_valid")],
@@ -443,7 +443,7 @@ def run_legacy(ctx, case):
     """legacy {..} version patterns: the same start-version rule, tags recognised by the legacy engine"""
     from bvmon import ref_v1
     R = random.Random(case["seed"])
-    p = R.choice(["{pycalver}", "{semver}", "v{year}{month}{build}{release}", "{year}.{month}.{dom}"])
+    p = R.choice(["{pycalver}", "{semver}", "v{year}{month}{build}{release}", "{year}.{month}.{dom}", "v{year}.{doy}"])
     ast = ref_v1.parse_pattern(p)
 
     def mk():
@@ -462,7 +462,12 @@ def run_legacy(ctx, case):
     tags += [(mk() + R.choice(["junk", "x", "-extra", ".1", "+local", " "]).rstrip(), "valid-prefix-only")
              for _ in range(R.choice([0, 0, 1, 2]))]
     if p == "{year}.{month}.{dom}":
-        tags += [(t, "impossible-date") for t in R.sample(["2021.02.30", "2023.04.31", "2022.02.29"], R.randint(0, 2))]
+        tags += [(t, "impossible-date") for t in R.sample(["2021.02.30", "2023.04.31", "2022.02.29", "2099.00.15"], R.randint(0, 2))]
+    # month 00 / day-of-year 000 (with a year later than any real tag): no such date
+    zero = {"{pycalver}": "v209900.1001", "v{year}{month}{build}{release}": "v209900.1001-beta", "v{year}.{doy}": "v2099.000"}.get(p)
+    if zero and R.random() < 0.5:
+        tags.append((zero, "impossible-date"))
+        ctx.count("legacy_tags_with_month_or_day_zero")
     seen, tl = set(), []
     for t, k in tags:
         if t not in seen:
